@@ -118,6 +118,14 @@ static void c17_huge_counts(vr_rng *r)
     for (int k = 0; k < ka; k++) cmb_datasummary_merge(a, a, a);
     for (int k = 0; k < kb; k++) cmb_datasummary_merge(b, b, b);
     q_t Na = (q_t)na * powq(2, ka), Nb = (q_t)nb * powq(2, kb), N = Na + Nb;
+    /* the doubled summary by itself: 2^ka copies of the base data have the base data's central moments; skewness and kurtosis with their finite-sample
+     * factors at a count beyond 2^32 */
+    { q_t m = 0; for (size_t k = 0; k < na; k++) m += xa[k]; m /= (q_t)na; q_t c2 = 0, c3 = 0, c4 = 0; for (size_t k = 0; k < na; k++) { q_t dd = xa[k] - m; c2 += dd * dd; c3 += dd * dd * dd; c4 += dd * dd * dd * dd; } c2 /= (q_t)na; c3 /= (q_t)na; c4 /= (q_t)na;
+      q_t g1 = c3 / (c2 * sqrtq(c2)), g2 = c4 / (c2 * c2) - 3, G1 = sqrtq(Na * (Na - 1)) / (Na - 2) * g1, G2 = (Na - 1) / ((Na - 2) * (Na - 3)) * ((Na + 1) * g2 + 6);
+      double ls = cmb_datasummary_skewness(a), lk = cmb_datasummary_kurtosis(a);
+      if (fabs(ls - (double)G1) > 1e-7 * (1 + fabs((double)G1))) vr_violation("C17/skewness", "%zu samples merged with themselves %d times (count %.0f): skewness %.12g, exact %.12g", na, ka, (double)Na, ls, (double)G1);
+      else if (fabs(lk - (double)G2) > 1e-7 * (1 + fabs((double)G2))) vr_violation("C17/kurtosis", "%zu samples merged with themselves %d times (count %.0f): kurtosis %.12g, exact %.12g", na, ka, (double)Na, lk, (double)G2);
+      VR_CNT("skewness_and_kurtosis_of_huge_summaries"); if (Na > 4294967296.0Q) VR_CNT("skewness_and_kurtosis_at_counts_beyond_2_32"); }
     q_t ma = 0, mb = 0; for (size_t k = 0; k < na; k++) ma += xa[k]; ma /= (q_t)na; for (size_t k = 0; k < nb; k++) mb += xb[k]; mb /= (q_t)nb;
     q_t M2a = 0, M2b = 0; for (size_t k = 0; k < na; k++) M2a += (xa[k] - ma) * (xa[k] - ma); for (size_t k = 0; k < nb; k++) M2b += (xb[k] - mb) * (xb[k] - mb);
     M2a *= powq(2, ka); M2b *= powq(2, kb);
